@@ -12,6 +12,7 @@ from panoptica.utils.processing_pair import (
     UnmatchedInstancePair,
 )
 from panoptica.utils.instancelabelmap import InstanceLabelMap
+from panoptica.utils.numpy_utils import _get_smallest_fitting_uint
 from panoptica.utils.config import SupportsConfig
 
 
@@ -125,13 +126,20 @@ def map_instance_labels(
 
     assert np.all([i in pred_labelmap for i in pred_labels])
 
+    # the newly assigned labels may not fit into the dtype of the arrays
+    reference_arr = processing_pair._reference_arr
+    required_dtype = _get_smallest_fitting_uint(label_counter)
+    if np.iinfo(required_dtype).max > np.iinfo(prediction_arr.dtype).max:
+        prediction_arr = prediction_arr.astype(required_dtype)
+        reference_arr = reference_arr.astype(required_dtype)
+
     # Using the labelmap, actually change the labels in the array here
     prediction_arr_relabeled = _map_labels(prediction_arr, pred_labelmap)  # type:ignore
 
     # Build a MatchedInstancePair out of the newly derived data
     matched_instance_pair = MatchedInstancePair(
         prediction_arr=prediction_arr_relabeled,
-        reference_arr=processing_pair._reference_arr,
+        reference_arr=reference_arr,
     )
     return matched_instance_pair
 
